@@ -6,7 +6,7 @@ import ast
 
 from ..core import AnchorError, call_name, decorators, decorator_node, norm, short, own_nodes, kwarg, FUNC_TYPES
 from ..cfg import cfg_of
-from ..lib import calls_in, stmts_in, gate, must_pass, node_has, params, param_default, attr_stores, none_accept
+from ..lib import calls_in, stmts_in, gate, must_pass, node_has, params, param_default, attr_stores, none_accept, value_cases, xnorm
 from ..stores import find_stores, is_container_expr
 
 EXPECTED_STORES = {
@@ -210,7 +210,11 @@ def rule_c(repo, chk):
             if ok:
                 callv = s.value if isinstance(s.value, ast.Call) else defs[0].value
                 g0 = callv.args[0] if callv.args else None
-                ok2 = isinstance(g0, ast.IfExp) and 'is_stub()' in norm(g0.test) and 'latest_grammar' in norm(g0.body) and norm(g0.orelse).endswith('.grammar')
+                cases = value_cases(init, g0) if g0 is not None else []
+                stub = [v for c, v in cases if len(c) == 1 and 'is_stub()' in c[0][0] and c[0][1]]
+                plain = [v for c, v in cases if len(c) == 1 and 'is_stub()' in c[0][0] and not c[0][1]]
+                ok2 = len(cases) == 2 and len(stub) == 1 and len(plain) == 1 and xnorm(stub[0], init).endswith('.latest_grammar') \
+                    and xnorm(plain[0], init).endswith('.grammar')
                 chk.ob('C08.c', ok2, s, 'the grammar used to find the cache node matches the module kind (stub: latest grammar)', short(g0))
     pv = [s for s in stmts_in(init, ast.Assign) if any(isinstance(t, ast.Name) and t.id == 'path' for t in s.targets)]
     chk.ob('C08.c', bool(pv) and all('py__file__()' in norm(s.value) for s in pv), init, '`path` is the module\'s py__file__()')
